@@ -259,7 +259,7 @@ extern "C" int harness_main() {
   init_tree(sc);
   static const char* kValid = "ninja_dyndep_version = 1\nbuild out | out.imp: dyndep | h2\n";
   std::string text; bool must_fail = true, either = false;
-  int kind = verif_choice("bad_kind", 9);
+  int kind = verif_choice("bad_kind", 10);
   if (kind == 0) {            // truncated at a symbolic byte
     int full = (int)strlen(kValid); int cut = (int)verif_nondet("cut", 0, full);
     text.assign(kValid, (size_t)cut);
@@ -276,6 +276,9 @@ extern "C" int harness_main() {
   else if (kind == 5) text = "ninja_dyndep_version = 1\nbuild out | out.imp: dyndep | h2\nbuild x: dyndep\n";       // adds a statement without the binding
   else if (kind == 6) text = "build out | out.imp: dyndep | h2\n";                                                   // no version line
   else if (kind == 7) text = "ninja_dyndep_version = 1\nbuild out | out.imp: dyndep | h2\nbuild nosuch: dyndep\n";  // unknown output
+#if SCENARIO == 15
+  else if (kind == 8) text = "ninja_dyndep_version = 1\nbuild out | out.imp: dyndep | h2\nbuild out2: dyndep\n";        // adds a statement for an output bound to another dyndep file
+#endif
   else { text = kValid; must_fail = false; }
   g_dyndep_override = &text;
   InvocationOpts o; o.targets = split_words(sc->targets); o.run.parallelism = 1 + verif_choice("jobs_minus_1", 2);
